@@ -7,6 +7,7 @@ package main
 // Nothing is executed from the copies: they are only parsed and type-checked.
 
 import (
+	"encoding/json"
 	"fmt"
 	"os"
 	"os/exec"
@@ -44,6 +45,10 @@ func runSelftest(c *Ctx, verifDir string) {
 	// properties: none of them may make THIS property's check fire
 	add(filepath.Join(verifDir, "neutral_pool", "*", "*.patch"), "pool")
 	add(filepath.Join(verifDir, "neutral_pool2", "*", "*.patch"), "pool")
+	// the round-4 restructurings with their bug repaired (DESIGN §8.12). Those this machinery
+	// cannot decide are listed, per property, in a limit.json next to the patch: they are run
+	// and reported ("limit"), and count neither as silent nor as a false alarm
+	add(filepath.Join(verifDir, "neutral_pool3", "*", "*.patch"), "pool")
 	if len(variants) == 0 {
 		return
 	}
@@ -69,6 +74,20 @@ func runSelftest(c *Ctx, verifDir string) {
 				name = filepath.Base(filepath.Dir(filepath.Dir(path))) + "/" + filepath.Base(filepath.Dir(path)) + "/" + name
 			}
 			res := variantResult{Name: name, Kind: kind}
+			if kind == "pool" {
+				if lim, err := os.ReadFile(filepath.Join(filepath.Dir(path), "limit.json")); err == nil {
+					var l struct {
+						AlarmsUnder []string `json:"alarms_under"`
+					}
+					if json.Unmarshal(lim, &l) == nil {
+						for _, pp := range l.AlarmsUnder {
+							if pp == prop {
+								res.Kind = "limit"
+							}
+						}
+					}
+				}
+			}
 			if kind == "seeded" {
 				if meta, err := os.ReadFile(filepath.Join(filepath.Dir(path), "meta.json")); err == nil && strings.Contains(string(meta), "\"status_after_fixes\"") {
 					res.Kind = "seeded-neutralised" // a later repository fix made this change harmless; the check must stay silent
@@ -106,10 +125,13 @@ func runSelftest(c *Ctx, verifDir string) {
 	st := map[string]any{}
 	var missed, falseAlarms, skipped []string
 	nM, nMD, nS, nSD, nN, nNS := 0, 0, 0, 0, 0, 0
+	var limits []string
 	for _, r := range results {
 		switch {
 		case r.Exit == -1:
 			skipped = append(skipped, r.Name)
+		case r.Kind == "limit":
+			limits = append(limits, fmt.Sprintf("%s(exit %d)", r.Name, r.Exit))
 		case r.Kind == "mutant":
 			nM++
 			if r.Exit == 1 {
@@ -137,6 +159,7 @@ func runSelftest(c *Ctx, verifDir string) {
 	st["seeded_applied"], st["seeded_detected"] = nS, nSD
 	st["neutral_applied"], st["neutral_silent"] = nN, nNS
 	st["not_detected"], st["false_alarms"], st["skipped"] = missed, falseAlarms, skipped
+	st["known_limits_run"] = limits
 	st["results"] = results
 	c.R.Selftest = st
 	fmt.Printf("selftest %s: mutants %d/%d detected, seeded %d/%d detected, neutral %d/%d silent", prop, nMD, nM, nSD, nS, nNS, nN)
